@@ -414,6 +414,7 @@ def _full(kind_name, slot, s, tg):
     base.desc = v["base_desc"] if v["base_desc"] is not None else ""
     _add_kv(base, KVDef("targetname", ValueTypes.TARG_SOURCE, "Name", "", "The name."))
     base.inputs["kill"] = {frozenset(): IODef("Kill", ValueTypes.VOID, "Remove.")}
+    base.resources = []        # an explicitly empty @resources block ("defined, nothing to pack") is not the same as none
     f.entities["basething"] = base
     e = EntityDef(EntityTypes[kind_name], "the_Entity")
     e.bases.append(base)
